@@ -11,19 +11,22 @@ Definition str := list Z.
 (* ---------- Lua VM side ---------- *)
 Definition digit_char (d : Z) : Z := if d <? 10 then 48 + d else 87 + d.
 
-(* digits of n >= 0 in the given base, most significant first *)
-Fixpoint digits_fuel (fuel : nat) (base n : Z) (acc : list Z) : list Z :=
+(* digits of n >= 0 in the given base, most significant first; None = the fuel ran out (unreachable
+   for 64-bit arguments, ProofsText2.nat_digits_spec) *)
+Fixpoint digits_fuel (fuel : nat) (base n : Z) (acc : list Z) : option (list Z) :=
   match fuel with
-  | O => acc
-  | S f => if n <? base then n :: acc else digits_fuel f base (n / base) (n mod base :: acc)
+  | O => None
+  | S f => if n <? base then Some (n :: acc) else digits_fuel f base (n / base) (n mod base :: acc)
   end.
-Definition nat_digits (base n : Z) : list Z := digits_fuel 64 base n [].
+Definition nat_digits (base n : Z) : option (list Z) := digits_fuel 64 base n [].
 
 (* tostring(n) for a Lua integer: "%lld" *)
-Definition lua_tostring_int (n : Z) : str :=
-  if n <? 0 then 45 :: map digit_char (nat_digits 10 (- n)) else map digit_char (nat_digits 10 n).
+Definition lua_tostring_int (n : Z) : option str :=
+  if n <? 0 then match nat_digits 10 (- n) with Some ds => Some (45 :: map digit_char ds) | None => None end
+  else match nat_digits 10 n with Some ds => Some (map digit_char ds) | None => None end.
 (* string.format('%x', n): unsigned reading *)
-Definition lua_format_x (n : Z) : str := map digit_char (nat_digits 16 (u64 n)).
+Definition lua_format_x (n : Z) : option str :=
+  match nat_digits 16 (u64 n) with Some ds => Some (map digit_char ds) | None => None end.
 
 Definition is_space (c : Z) : bool := (c =? 32) || ((9 <=? c) && (c <=? 13)).
 Definition is_digit (c : Z) : bool := (48 <=? c) && (c <=? 57).
@@ -146,8 +149,8 @@ Definition tobase (x : bint) (base : Z) (unsigned_opt : option bool) : res str :
   let small :=
     (((base =? 10) && negb unsigned) || ((base =? 16) && unsigned && negb isxneg))
     && ble x (frominteger maxint) && ble (frominteger minint) x in
-  if small && (base =? 10) then Ok (lua_tostring_int (tointeger x))
-  else if small && unsigned then Ok (lua_format_x (tointeger x))
+  if small && (base =? 10) then match lua_tostring_int (tointeger x) with Some t => Ok t | None => Err EFuel end
+  else if small && unsigned then match lua_format_x (tointeger x) with Some t => Ok t | None => Err EFuel end
   else
     let neg := negb unsigned && isxneg in
     let x := if neg then babs x else x in
